@@ -117,8 +117,19 @@ fn replay(ctx: &Ctx, path: &str) -> i32 {
 		match replay_direct(ctx, &doc) {
 			Some(r) => r,
 			None => {
-				eprintln!("replay: unsupported replay kind {} for {}", doc["kind"], ctx.property);
-				return 2;
+				// cases found by a deterministic enumeration carry no tape: re-run the enumeration (quick tier)
+				// and look for the same root-cause signature
+				eprintln!("replay: re-running the {} quick tier and looking for signature {}", ctx.property, doc["signature"]);
+				match run_property(ctx) {
+					Some((_, report)) => match report.violations.iter().find(|(sig, _)| Some(sig.as_str()) == doc["signature"].as_str()) {
+						Some((sig, d)) => Err(Violation::new(sig.clone(), d["detail"].as_str().unwrap_or("").to_string())),
+						None => Ok(()),
+					},
+					None => {
+						eprintln!("replay: unknown property {}", ctx.property);
+						return 2;
+					},
+				}
 			},
 		}
 	};
